@@ -1,6 +1,129 @@
 // memext.rs — builder-based operations (copy_b / chmod_b / chown_b options, entries traversals)
+use crate::{hex, unhex_s};
 use rivia::prelude::*;
 
-pub fn apply<V: VirtualFileSystem>(_vfs: &V, _f: &[&str]) -> Option<String> {
-    None
+fn kv(s: &str) -> Vec<(String, String)> {
+    if s.is_empty() || s == "-" {
+        return vec![];
+    }
+    s.split(',')
+        .map(|x| match x.find('=') {
+            Some(i) => (x[..i].to_string(), x[i + 1..].to_string()),
+            None => (x.to_string(), "1".to_string()),
+        })
+        .collect()
+}
+fn get<'a>(o: &'a [(String, String)], k: &str) -> Option<&'a str> {
+    o.iter().find(|(a, _)| a == k).map(|(_, v)| v.as_str())
+}
+fn r_unit(r: RvResult<()>) -> String {
+    match r {
+        Ok(_) => "ok".into(),
+        Err(e) => crate::pure::errkind(&e),
+    }
+}
+
+pub fn apply<V: VirtualFileSystem>(vfs: &V, f: &[&str]) -> Option<String> {
+    let a = |i: usize| -> String { unhex_s(f.get(i).copied().unwrap_or("")) };
+    Some(match f[0] {
+        "entries" => {
+            let mut e = match vfs.entries(a(1)) {
+                Ok(e) => e,
+                Err(err) => return Some(crate::pure::errkind(&err)),
+            };
+            for (k, v) in kv(f.get(2).copied().unwrap_or("")) {
+                e = match k.as_str() {
+                    "follow" => e.follow(v != "0"),
+                    "min" => e.min_depth(v.parse().unwrap()),
+                    "max" => e.max_depth(v.parse().unwrap()),
+                    "sort" => e.sort_by_name(),
+                    "df" => e.dirs_first(),
+                    "ff" => e.files_first(),
+                    "cf" => e.contents_first(),
+                    "dirs" => e.dirs(),
+                    "files" => e.files(),
+                    "maxdesc" => sys::verif::set_max_descriptors(e, v.parse().unwrap()),
+                    _ => panic!("wopt"),
+                };
+            }
+            let mut out = vec![];
+            for (i, x) in e.into_iter().enumerate() {
+                if i > 20000 {
+                    out.push("RUNAWAY".to_string());
+                    break;
+                }
+                match x {
+                    Ok(en) => out.push(hex(en.path().to_str().unwrap().as_bytes())),
+                    Err(err) => out.push(crate::pure::errkind(&err)),
+                }
+            }
+            format!("I{}", out.join(","))
+        },
+        "copy_b" => {
+            let o = kv(f.get(3).copied().unwrap_or(""));
+            let mut c = match vfs.copy_b(a(1), a(2)) {
+                Ok(c) => c,
+                Err(e) => return Some(crate::pure::errkind(&e)),
+            };
+            if let Some(m) = get(&o, "all") {
+                c = c.chmod_all(m.parse().unwrap());
+            } else if let Some(m) = get(&o, "cdirs") {
+                c = c.chmod_dirs(m.parse().unwrap());
+            } else if let Some(m) = get(&o, "cfiles") {
+                c = c.chmod_files(m.parse().unwrap());
+            }
+            if get(&o, "follow").map(|x| x != "0").unwrap_or(false) {
+                c = c.follow(true);
+            }
+            r_unit(c.exec())
+        },
+        "chmod_b" => {
+            let o = kv(f.get(2).copied().unwrap_or(""));
+            let mut c = match vfs.chmod_b(a(1)) {
+                Ok(c) => c,
+                Err(e) => return Some(crate::pure::errkind(&e)),
+            };
+            if let Some(m) = get(&o, "all") {
+                c = c.all(m.parse().unwrap());
+            }
+            if let Some(m) = get(&o, "dirs") {
+                c = c.dirs(m.parse().unwrap());
+            }
+            if let Some(m) = get(&o, "files") {
+                c = c.files(m.parse().unwrap());
+            }
+            if get(&o, "follow").map(|x| x != "0").unwrap_or(false) {
+                c = c.follow();
+            }
+            if get(&o, "norecurse").is_some() {
+                c = c.no_recurse();
+            }
+            let sym = a(3);
+            if !sym.is_empty() {
+                c = c.sym(&sym);
+            }
+            r_unit(c.exec())
+        },
+        "chown_b" => {
+            let o = kv(f.get(2).copied().unwrap_or(""));
+            let mut c = match vfs.chown_b(a(1)) {
+                Ok(c) => c,
+                Err(e) => return Some(crate::pure::errkind(&e)),
+            };
+            if let Some(u) = get(&o, "uid") {
+                c = c.uid(u.parse().unwrap());
+            }
+            if let Some(g) = get(&o, "gid") {
+                c = c.gid(g.parse().unwrap());
+            }
+            if get(&o, "follow").map(|x| x != "0").unwrap_or(false) {
+                c = c.follow();
+            }
+            if get(&o, "norecurse").is_some() {
+                c = c.recurse(false);
+            }
+            r_unit(c.exec())
+        },
+        _ => return None,
+    })
 }
